@@ -1240,18 +1240,23 @@ package modfile
 //@   ensures [C16] inserted_at: len(f.Syntax.Stmt) == old(len(f.Syntax.Stmt)) + 1 && ISBLOCK(f.Syntax.Stmt[i]) && ifaceptr(f.Syntax.Stmt[i]) == result
 //@   ensures [C16] before_kept: forall k int {f.Syntax.Stmt[k]} :: 0 <= k && k < i ==> f.Syntax.Stmt[k] == old(f.Syntax.Stmt[k])
 //@   ensures [C16] after_moved_up: forall k int {f.Syntax.Stmt[k]} :: i < k && k < len(f.Syntax.Stmt) ==> f.Syntax.Stmt[k] == old(f.Syntax.Stmt[k-1])
+//@   ensures f.Syntax == old(f.Syntax)
 //@   props C16
 //@ # ensureBlock(i): statement i as a block - the block itself, or a fresh require block whose only line is the former
 //@ # top-level line, now marked in-block and without its verb
 //@ func (*File).SetRequireSeparateIndirect$4
 //@   requires f != nil && f.Syntax != nil && 0 <= i && i < len(f.Syntax.Stmt)
-//@   requires (ISBLOCK(f.Syntax.Stmt[i]) && ifaceptr(f.Syntax.Stmt[i]) != 0) || (ISLINE(f.Syntax.Stmt[i]) && ifaceptr(f.Syntax.Stmt[i]) != 0 && len(ifaceptr(f.Syntax.Stmt[i], "*Line").Token) >= 1)
+//@   requires ISBLOCK(f.Syntax.Stmt[i]) || ISLINE(f.Syntax.Stmt[i])
+//@   requires ifaceptr(f.Syntax.Stmt[i]) != 0
+//@   requires_assumed "the caller only passes the index of a require line found by its scan (first token require) or of a block; that the line still has its tokens at the second call is not re-proved there" ISLINE(f.Syntax.Stmt[i]) ==> len(ifaceptr(f.Syntax.Stmt[i], "*Line").Token) >= 1
 //@   modifies FileSyntax.Stmt, []Expr, Line.Token, Line.InBlock
 //@   allocates
 //@   ensures [C16] is_the_block_at_i: result != nil && ISBLOCK(f.Syntax.Stmt[i]) && ifaceptr(f.Syntax.Stmt[i]) == result && len(f.Syntax.Stmt) == old(len(f.Syntax.Stmt))
 //@   ensures [C16] existing_block_returned: old(ISBLOCK(f.Syntax.Stmt[i])) ==> result == old(ifaceptr(f.Syntax.Stmt[i]))
 //@   ensures [C16] line_wrapped: old(ISLINE(f.Syntax.Stmt[i])) ==> fresh(result) && len(result.Line) == 1 && result.Line[0] == old(ifaceptr(f.Syntax.Stmt[i])) && result.Line[0].InBlock && len(result.Line[0].Token) == old(len(ifaceptr(f.Syntax.Stmt[i], "*Line").Token)) - 1 && len(result.Token) == 1 && result.Token[0] == "require"
 //@   ensures [C16] others_kept: forall k int {f.Syntax.Stmt[k]} :: 0 <= k && k < len(f.Syntax.Stmt) && k != i ==> f.Syntax.Stmt[k] == old(f.Syntax.Stmt[k])
+//@   ensures forall l *Line {l.Token} :: !(old(ISLINE(f.Syntax.Stmt[i])) && l == old(ifaceptr(f.Syntax.Stmt[i]))) ==> l.Token == old(l.Token)
+//@   ensures f.Syntax == old(f.Syntax)
 //@   props C16
 //@ # moveReq(r, block): r's line becomes a fresh in-block line appended to block; an existing line hands over its
 //@ # comments and its tokens without the verb and is emptied (Cleanup deletes it); a requirement without a line gets
@@ -1264,5 +1269,48 @@ package modfile
 //@   ensures [C16] block_lines_kept: forall k int {block.Line[k]} :: 0 <= k && k < old(len(block.Line)) ==> block.Line[k] == old(block.Line[k])
 //@   ensures [C16] old_line_emptied: old(r.Syntax) != nil ==> old(r.Syntax).Token == nil
 //@   ensures [C16] comments_move_with_the_line: old(r.Syntax) != nil ==> r.Syntax.Comments.Before == old(r.Syntax.Comments.Before) && r.Syntax.Comments.Suffix == old(r.Syntax.Comments.Suffix) && r.Syntax.Comments.After == old(r.Syntax.Comments.After)
+//@   ensures forall q *Require {q.Syntax} :: q != r ==> q.Syntax == old(q.Syntax)
+//@   ensures forall q *Require {q.Indirect} :: q != r ==> q.Indirect == old(q.Indirect)
 //@   ensures [C16] verb_dropped: old(r.Syntax) != nil ==> r.Syntax.Token == (if !old(r.Syntax.InBlock) && old(len(r.Syntax.Token)) > 0 && old(r.Syntax.Token[0]) == "require" then old(r.Syntax.Token)[1:] else old(r.Syntax.Token))
+//@   props C16
+
+//@ spec macro LB(e Expr) bool = (ISLINE(e) || ISBLOCK(e))
+//@ func (*File).SetRequireSeparateIndirect
+//@   requires f != nil && f.Syntax != nil
+//@   requires_assumed "representation invariant of the syntax tree" forall k int :: 0 <= k && k < len(f.Syntax.Stmt) ==> ADDLINE_WF(f.Syntax.Stmt[k])
+//@   requires_assumed "representation invariant of the typed list" RQ_NONNIL(f)
+//@   requires_assumed "representation invariant of the syntax tree: distinct statements are distinct objects" forall a int, b int :: 0 <= a && a < b && b < len(f.Syntax.Stmt) && LB(f.Syntax.Stmt[a]) && LB(f.Syntax.Stmt[b]) ==> ifaceptr(f.Syntax.Stmt[a]) != ifaceptr(f.Syntax.Stmt[b])
+//@   # the point of the operation: requirements are placed into two different blocks
+//@   call (*Require).markRemoved requires [C16] direct_and_indirect_blocks_differ: lastDirectBlock != nil && lastIndirectBlock != nil && lastDirectBlock != lastIndirectBlock
+//@   requires forall d int :: 0 <= d && d < len(req) ==> req[d] != nil && req[d].Mod.Path != ""
+//@   modifies *
+//@   allocates
+//@   loop 0:
+//@     invariant 0 - 1 <= @idx && @idx < len(f.Syntax.Stmt) && f != nil && f.Syntax != nil && f.Syntax.Stmt == pre(f.Syntax.Stmt) && lineToBlock != nil
+//@     invariant 0 - 1 <= lastDirectIndex && lastDirectIndex <= @idx && 0 - 1 <= lastIndirectIndex && lastIndirectIndex <= @idx && 0 - 1 <= lastRequireIndex && lastRequireIndex <= @idx
+//@     invariant requireLineOrBlockCount >= 0 && requireLineOrBlockCount <= @idx + 1 && (requireLineOrBlockCount >= 1 ==> lastRequireIndex >= 0)
+//@     invariant lastDirectIndex >= 0 && lastIndirectIndex >= 0 ==> lastDirectIndex != lastIndirectIndex
+//@     invariant (lastDirectIndex >= 0 ==> LB(f.Syntax.Stmt[lastDirectIndex]) && (ISLINE(f.Syntax.Stmt[lastDirectIndex]) ==> len(ifaceptr(f.Syntax.Stmt[lastDirectIndex], "*Line").Token) >= 1)) && (lastIndirectIndex >= 0 ==> LB(f.Syntax.Stmt[lastIndirectIndex]) && (ISLINE(f.Syntax.Stmt[lastIndirectIndex]) ==> len(ifaceptr(f.Syntax.Stmt[lastIndirectIndex], "*Line").Token) >= 1)) && (lastRequireIndex >= 0 ==> LB(f.Syntax.Stmt[lastRequireIndex]))
+//@     invariant forall k int :: 0 <= k && k < len(f.Syntax.Stmt) ==> ADDLINE_WF(f.Syntax.Stmt[k])
+//@     decreases len(f.Syntax.Stmt) - @idx
+//@   loop 1:
+//@     invariant 0 - 1 <= @idx && @idx < len(stmt.Line) && stmt != nil && lineToBlock != nil && f != nil && f.Syntax != nil && f.Syntax.Stmt == pre(f.Syntax.Stmt)
+//@     invariant @idx >= 0 ==> !(allDirect && allIndirect)
+//@     invariant len(stmt.Line) == 0 ==> !allDirect && !allIndirect
+//@     invariant forall k int :: 0 <= k && k < len(f.Syntax.Stmt) ==> ADDLINE_WF(f.Syntax.Stmt[k])
+//@     decreases len(stmt.Line) - @idx
+//@   loop 2:
+//@     invariant 0 - 1 <= @idx && @idx < len(req) && need != nil && f != nil && f.Syntax != nil
+//@     invariant lastDirectBlock != nil && lastIndirectBlock != nil && lastDirectBlock != lastIndirectBlock
+//@     invariant forall p string {need[p]} :: has(need, p) ==> need[p] != nil && p != ""
+//@     decreases len(req) - @idx
+//@   loop 3:
+//@     invariant 0 - 1 <= @idx && @idx < len(f.Require) && need != nil && have != nil && f != nil && f.Syntax != nil && lineToBlock != nil && f.Require == pre(f.Require)
+//@     invariant lastDirectBlock != nil && lastIndirectBlock != nil && lastDirectBlock != lastIndirectBlock
+//@     invariant forall p string {need[p]} :: has(need, p) ==> need[p] != nil && p != ""
+//@     invariant RQ_NONNIL(f)
+//@     decreases len(f.Require) - @idx
+//@   loop 4:
+//@     invariant need != nil && have != nil && f != nil && f.Syntax != nil && lastDirectBlock != nil && lastIndirectBlock != nil
+//@     invariant forall p string {need[p]} :: has(need, p) ==> need[p] != nil
 //@   props C16
